@@ -328,9 +328,8 @@ func gen(r *lib.Rand, tier, stream string, i int) History {
 			return
 		}
 		need[n] = true
-		for _, d := range modules[n].Deps() {
-			add(d)
-		}
+		// the recipes of the dependencies are NOT generated: a module's own recipe sets up what it
+		// needs from them (e.g. farm adds coinswap liquidity); their state is still imported into B first
 		order = append(order, n)
 	}
 	for _, n := range h.Mods {
